@@ -521,3 +521,10 @@ func prune(v any) any {
 	}
 	return v
 }
+
+// UID of a stored object.
+func UID(o Obj) string {
+	m, _ := o["metadata"].(map[string]any)
+	s, _ := m["uid"].(string)
+	return s
+}
